@@ -3,7 +3,7 @@
    Model/Engines.v (entry points, .aux files, READ) over Model/Bst.v (the interpreter) and
    Model/Citations.v (citation resolution). *)
 From Pybtex Require Import Base.Prelude Base.PyChar Base.PyStr Model.BibtexStr Model.Wrap Model.Bst Model.Citations Model.Engines
-  Proofs.EnginesSort Proofs.Engines Proofs.EnginesExec Proofs.EnginesMeta Proofs.EnginesOrder.
+  Proofs.EnginesSort Proofs.Engines Proofs.EnginesExec Proofs.EnginesMeta Proofs.EnginesOrder Proofs.EnginesProbe.
 From Coq Require Import Permutation Sorted.
 
 (* Driving the engine through an .aux file = the equivalent explicit call, byte for byte: whenever the
@@ -27,6 +27,16 @@ Theorem aux_equals_explicit : forall fmt_name cw fuel fs aux style bf m ad sty d
   end.
 Proof. exact make_bibliography_explicit. Qed.
 Print Assumptions aux_equals_explicit.
+
+(* What an .aux file (without \@input) says: its citations are the comma-separated pieces of its
+   \citation lines, in order; its style / database names those of the FIRST \bibstyle / \bibdata line. *)
+Theorem aux_file_states : forall depth fs name lines ad,
+  fs_get fs name = Some (FAux lines) -> forallb no_input lines = true ->
+  aux_parse_file depth fs name = Ok ad ->
+  ax_cites ad = flat_map line_cites lines /\
+  ax_style ad = first_some line_style lines /\ ax_data ad = first_some line_data lines.
+Proof. exact aux_file_says. Qed.
+Print Assumptions aux_file_states.
 
 (* An explicitly requested style overrides what the .aux file says: two .aux files that agree on
    everything but the style they name give the same result under an explicit style. *)
@@ -83,6 +93,15 @@ Theorem file_order_irrelevant : forall db db' cites m,
   engine_read db cites m = engine_read db' cites m.
 Proof. exact engine_read_reorder. Qed.
 Print Assumptions file_order_irrelevant.
+
+(* ... hence the entry point returns the same outcome for both orders *)
+Theorem file_order_irrelevant_output : forall fmt_name cw fuel fs f db db' sty cites bf m,
+  Permutation db db' -> NoDup (map lkey db) -> nostar cites db ->
+  children_first cites db -> children_first cites db' ->
+  format_from_string fmt_name cw fuel fs (f, db) sty (Some cites) bf m =
+  format_from_string fmt_name cw fuel fs (f, db') sty (Some cites) bf m.
+Proof. exact format_from_string_reorder. Qed.
+Print Assumptions file_order_irrelevant_output.
 
 (* the ordering rule cannot be dropped (finding F13, shared with C05): with the cross-referenced,
    uncited entry FIRST, the one-pass reader has not been asked for it yet and drops it *)
@@ -142,6 +161,17 @@ Theorem reverse_visits_each_once : forall fmt_name cw fuel st f o st',
     last sts st = st'.
 Proof. exact reverse_command_chain. Qed.
 Print Assumptions reverse_visits_each_once.
+
+(* End to end for one concrete non-sorting style,
+     ENTRY {title} {} {}  FUNCTION {f} { cite$ write$ newline$ }  READ  ITERATE {f} :
+   whatever the bibliography files and the citation list, the run succeeds and the output consists of
+   exactly one item (the wrapped key and a line end) per citation READ resolves, in that order. *)
+Theorem probe_style_one_item_per_citation : forall fmt_name cw fuel fs cites srcs fmt m db,
+  5 <= fuel -> parse_files fs fmt srcs = Ok db ->
+  exists st, engine_run fmt_name cw fuel fs probe_style cites srcs fmt m = Ok st /\
+    output_of st = concat (map (fun k => item_text k ++ [c_nl]) (r_cites (engine_read db cites m))).
+Proof. exact probe_style_output. Qed.
+Print Assumptions probe_style_one_item_per_citation.
 
 (* SORT: the citation list becomes a permutation of itself, in sort.key$ order (Python's string
    order = lexicographic on code points), citations with equal keys keeping their relative order. *)
